@@ -241,26 +241,7 @@ func c07(c *core.Ctx) {
 
 	// ---------------------------------------------------------------- R2
 	if c.Rule("R2", "truncation is an error: an io.EOF from a payload read never leaves the server stream's RecvMsg (normalised to ErrUnexpectedEOF); a clean EOF at a preface stays io.EOF; client: every exit of the response reader established an error, a non-OK code or a decoded trailer, an unnormalised io.EOF never becomes the terminal error, and after the single-response probe only io.EOF is success", 8) {
-		t := core.NewTaint(eofSpec(false, false), fns)
-		n := 0
-		for _, nt := range streamTypes(p, "ServerStream", "RecvMsg") {
-			if pkgSuffixOf(nt) != "httpgrpc" {
-				continue
-			}
-			fn := declaredMethod(p, nt, "RecvMsg")
-			for _, r := range core.ErrReturns(fn) {
-				n++
-				ev := r.Results[len(r.Results)-1]
-				key := typeKey(nt) + ".RecvMsg:return"
-				if t.At(ev, r) {
-					c.Fail(key+":payload-eof", r.Pos(), "an io.EOF produced by reading a message payload can be returned as is: a request truncated inside a message would look like a clean half-close")
-				} else {
-					c.Ok(key+":payload-eof", r.Pos(), "no unnormalised payload-read io.EOF reaches this return")
-				}
-			}
-			c.Paths += len(core.Returns(fn))
-		}
-		if n == 0 {
+		if c07ServerPayloadEOF(c, fns) == 0 {
 			c.Missing("httpgrpc server stream RecvMsg")
 		}
 		// client part: the response reader's exits and the terminal-error normalisation (obligations shared
@@ -792,4 +773,31 @@ func sendsOn(fn *ssa.Function, key string) []ssa.Value {
 		}
 	})
 	return out
+}
+
+// c07ServerPayloadEOF: an io.EOF produced by reading a message payload never
+// leaves the HTTP server stream's RecvMsg as it is (C07/R2; shared with C11/R5:
+// a truncated streaming request is an undecodable request, not a clean end).
+func c07ServerPayloadEOF(c *core.Ctx, fns []*ssa.Function) int {
+	p := c.P
+	t := core.NewTaint(eofSpec(false, false), fns)
+	n := 0
+	for _, nt := range streamTypes(p, "ServerStream", "RecvMsg") {
+		if pkgSuffixOf(nt) != "httpgrpc" {
+			continue
+		}
+		fn := declaredMethod(p, nt, "RecvMsg")
+		for _, r := range core.ErrReturns(fn) {
+			n++
+			ev := r.Results[len(r.Results)-1]
+			key := typeKey(nt) + ".RecvMsg:return"
+			if t.At(ev, r) {
+				c.Fail(key+":payload-eof", r.Pos(), "an io.EOF produced by reading a message payload can be returned as is: a request truncated inside a message would look like a clean half-close")
+			} else {
+				c.Ok(key+":payload-eof", r.Pos(), "no unnormalised payload-read io.EOF reaches this return")
+			}
+		}
+		c.Paths += len(core.Returns(fn))
+	}
+	return n
 }
